@@ -43,8 +43,18 @@ check("C11", "exploration",
       "rank counts are computed by the harness on its own sorted copy; sampled inputs only",
       "TLA+ acceptance predicate, TLC trace validation of reported percentiles", "DESIGN.md section 7 (C11)")
 
+check("C14", "model_checking",
+      "TargetsContract.tla is the reference grammar and merge; Targets.tla transcribes the peeking line scanner of NewHTTPTargeter and models Go "
+      "slices with capacity for the default-header merge. TLC checks for every sequence of line kinds up to length 5 (7 thorough) that the "
+      "scanner decodes each well-formed file to the reference blocks, explores the merge for any spare capacity and up to 3-4 targets "
+      "(Independent), and shows that both historic defects violate these. Every exported sequence and random http/JSON documents are decoded "
+      "by the real targeters (lazy, eager, static), earlier targets re-inspected after every call, and the traces validated by TLC.",
+      "well-formed = the reference grammar (blocks with headers end at a blank line/EOF; no blank between header key and colon; JSON lines newline-terminated as the pinned test requires)",
+      "TLA+ reference grammar vs scanner transcription (TLC exhaustive over line-kind sequences), exported cases replayed, TLC trace validation",
+      "DESIGN.md section 8 (C14)")
+
 UNDER = "check under construction in this round (specification and driver not committed yet)"
-for p in ["C01", "C05", "C06", "C07", "C08", "C09", "C13", "C14", "C15", "C17", "C18", "C19", "C20"]:
+for p in ["C01", "C05", "C06", "C07", "C08", "C09", "C13", "C15", "C17", "C18", "C19", "C20"]:
     NA[p] = UNDER
 NA["C16"] = ("arbitrary-byte crash/hang freedom of parsers has no abstract state machine to specify; deciding it means fuzzing, "
              "a different technique (DESIGN.md section 9)")
